@@ -168,6 +168,17 @@ func (t *Torrent) run(ctx context.Context) {
 	defer func() {
 		close(t.Done)
 		t.Pieces.Del()
+		// close the connections of peers that were never started
+		for {
+			select {
+			case e := <-t.Event:
+				if e, ok := e.(peer.TorAddPeer); ok {
+					e.Peer.Close()
+				}
+			default:
+				return
+			}
+		}
 	}()
 
 	t.rand = rand.New(rand.NewPCG(rand.Uint64(), rand.Uint64()))
@@ -1490,7 +1501,21 @@ func (t *Torrent) NewPeer(proxy string, conn net.Conn, addr netip.AddrPort, inco
 	}
 
 	select {
+	case <-t.Done:
+		conn.Close()
+		return ErrTorrentDead
+	default:
+	}
+
+	select {
 	case t.Event <- peer.TorAddPeer{p, init}:
+		select {
+		case <-t.Done:
+			// the event might never be handled
+			conn.Close()
+			return ErrTorrentDead
+		default:
+		}
 		return nil
 	case <-t.Done:
 		conn.Close()
